@@ -1,8 +1,13 @@
+/-
+  C03 helper lemmas, part 3: completeness. For schemas that pass `specOKc` in addition to `specOK`, the encoder model
+  does not refuse a regular value the specification encodes (`…_total` lemmas per clause, `encode_complete`), hence
+  `encode_iff` / `marshal_iff`: same domain, same bits.
+-/
 import Stgutg.Proofs.AperSpecComp
 
 namespace Stgutg.Proofs.AperSpec
 open Stgutg Stgutg.Aper Stgutg.Proofs.Bits
-open Stgutg.Spec.X691 (bitsFor octetsFor pad constrainedWholeNumber lengthDeterminant twosComplement octetsForSigned
+open Stgutg.Spec.X691 (bitsFor octetsFor pad constrainedWholeNumber lengthDeterminant lengthAndItems twosComplement octetsForSigned
   integer enumerated sizeConstraint bitString octetString)
 
 /-! ## Completeness: the model encodes whatever the specification encodes -/
@@ -194,25 +199,25 @@ theorem appendLength_total (pos : Nat) (sr : Int) (n : Nat)
 
 /-- where the specification accepts the size, the model's preamble succeeds; its outputs are in the domain of the rest -/
 theorem sizePreamble_total (len : Nat) (ext : Bool) (lbP ubP : Option Int) (x : Bits × Nat × Option Nat)
-    (hok : strOK' lbP ubP = true) (hlen : len < 16384)
+    (hok : strOK' lbP ubP = true)
     (h : sizeConstraint len ext lbP ubP = some x) :
     ∃ pre lb ub sr, sizePreamble len ext lbP ubP = .ok (pre, lb, ub, sr) ∧ 0 ≤ lb ∧
       ((sr = 1 ∧ (len : Int) = ub) ∨
-       (sr ≠ 1 ∧ lb ≤ len ∧ (((sr ≤ 0 ∨ 65536 < sr) ∧ len - lb.toNat < 16384) ∨
-          (2 ≤ sr ∧ sr ≤ 65536 ∧ ((len - lb.toNat : Nat) : Int) < sr)))) := by
+       (sr ≠ 1 ∧ lb ≤ len ∧ ((sr = -1 ∧ lb = 0) ∨
+          (2 ≤ sr ∧ sr ≤ 65536 ∧ ((len - lb.toNat : Nat) : Int) < sr ∧ len - lb.toNat < 16384)))) := by
   unfold sizeConstraint at h
   unfold sizePreamble
   cases lbP with
-  | none => exact ⟨[], 0, -1, -1, rfl, by decide, Or.inr ⟨by decide, by omega, Or.inl ⟨by omega, by omega⟩⟩⟩
+  | none => exact ⟨[], 0, -1, -1, rfl, by decide, Or.inr ⟨by decide, by omega, Or.inl ⟨rfl, rfl⟩⟩⟩
   | some l =>
     cases ubP with
     | none =>
       simp only [strOK', beq_iff_eq] at hok
       subst hok
-      exact ⟨[], 0, -1, -1, rfl, by decide, Or.inr ⟨by decide, by omega, Or.inl ⟨by omega, by omega⟩⟩⟩
+      exact ⟨[], 0, -1, -1, rfl, by decide, Or.inr ⟨by decide, by omega, Or.inl ⟨rfl, rfl⟩⟩⟩
     | some u =>
-      simp only [strOK', Bool.and_eq_true, decide_eq_true_eq] at hok
-      obtain ⟨hl0, hlu⟩ := hok
+      simp only [strOK', Bool.and_eq_true, Bool.or_eq_true, decide_eq_true_eq] at hok
+      obtain ⟨⟨hl0, hlu⟩, hspan⟩ := hok
       dsimp only at h ⊢
       have hbad : ¬ (l < 0 ∨ u < l) := by omega
       simp only [hbad, if_false] at h
@@ -224,27 +229,27 @@ theorem sizePreamble_total (len : Nat) (ext : Bool) (lbP ubP : Option Int) (x : 
         · split <;> omega
         · by_cases hbig : u > 65535
           · simp only [hbig, if_true]
-            exact Or.inr ⟨by decide, by omega, Or.inl ⟨by omega, by omega⟩⟩
+            exact Or.inr ⟨by decide, by omega, Or.inl ⟨trivial, trivial⟩⟩
           · simp only [hbig, if_false]
             by_cases hsr : u - l + 1 = 1
             · exact Or.inl ⟨hsr, by omega⟩
-            · exact Or.inr ⟨hsr, by omega, Or.inr ⟨by omega, by omega, by omega⟩⟩
+            · exact Or.inr ⟨hsr, by omega, Or.inr ⟨by omega, by omega, by omega, by omega⟩⟩
       · simp only [hin, if_false] at h
         by_cases hx : ext = true ∧ (len : Int) > u
         · have c1 : ¬ (len : Int) ≤ u := by omega
           simp only [c1, if_false, hx.1, Bool.not_true, Bool.false_eq_true]
-          exact ⟨[true], 0, u, -1, rfl, by decide, Or.inr ⟨by decide, by omega, Or.inl ⟨by omega, by omega⟩⟩⟩
+          exact ⟨[true], 0, u, -1, rfl, by decide, Or.inr ⟨by decide, by omega, Or.inl ⟨rfl, rfl⟩⟩⟩
         · simp [hx] at h
 
-/-- 17 OCTET STRING: completeness -/
+/-- 17 OCTET STRING: completeness, every length -/
 theorem octet_string_total (pos : Nat) (bytes : Bytes) (ext : Bool) (lbP ubP : Option Int) (b : Bits)
-    (hok : strOK' lbP ubP = true) (hlen : bytes.length < 16384)
+    (hok : strOK' lbP ubP = true)
     (h : octetString pos bytes ext lbP ubP = some b) : ∃ b', appendOctetString pos bytes ext lbP ubP = .ok b' := by
   unfold octetString at h
   cases hsc : sizeConstraint bytes.length ext lbP ubP with
   | none => rw [hsc] at h; simp at h
   | some x =>
-    obtain ⟨pre, lb, ub, sr, hsp, hlb0, hcase⟩ := sizePreamble_total _ _ _ _ x hok hlen hsc
+    obtain ⟨pre, lb, ub, sr, hsp, hlb0, hcase⟩ := sizePreamble_total _ _ _ _ x hok hsc
     unfold appendOctetString
     rw [hsp]
     dsimp only
@@ -254,17 +259,23 @@ theorem octet_string_total (pos : Nat) (bytes : Bytes) (ext : Bool) (lbP ubP : O
       split <;> exact ⟨_, rfl⟩
     · have : ¬ (bytes.length : Int) < lb := by omega
       simp only [hsr, if_false, this]
-      rw [fragLoop_small 8 sr lb.toNat _ _ _ _ (by omega)]
-      obtain ⟨l, hl⟩ := appendLength_total (pos + pre.length) sr (bytes.length - lb.toNat) hdom
-      rw [hl]
-      dsimp only
-      by_cases h0 : bytes.length - lb.toNat + lb.toNat = 0
-      · simp only [h0, if_true]; exact ⟨_, rfl⟩
-      · simp only [h0, if_false]; exact ⟨_, rfl⟩
+      rcases hdom with ⟨hsr1, hlb⟩ | ⟨d1, d2, d3, d4⟩
+      · subst hsr1 hlb
+        simp only [Int.toNat_zero, Nat.sub_zero]
+        rw [fragLoop_unc 8 (by decide) (bytes.length / 16384 + 1) _ bytes.length (bytesToBits bytes)
+          (by rw [bytesToBits_length]; omega) (Nat.le_refl _)]
+        exact ⟨_, rfl⟩
+      · rw [fragLoop_small 8 sr lb.toNat _ _ _ _ d4]
+        obtain ⟨l, hl⟩ := appendLength_total (pos + pre.length) sr (bytes.length - lb.toNat) (Or.inr ⟨d1, d2, d3⟩)
+        rw [hl]
+        dsimp only
+        by_cases h0 : bytes.length - lb.toNat + lb.toNat = 0
+        · simp only [h0, if_true]; exact ⟨_, rfl⟩
+        · simp only [h0, if_false]; exact ⟨_, rfl⟩
 
-/-- 16 BIT STRING: completeness (the value's octets hold at least the bits) -/
+/-- 16 BIT STRING: completeness, every length (the value's octets hold exactly the bits) -/
 theorem bit_string_total (pos : Nat) (bytes : Bytes) (len : Nat) (ext : Bool) (lbP ubP : Option Int) (b : Bits)
-    (hok : strOK' lbP ubP = true) (hlen : len < 16384) (hbytes : bytes.length = (len + 7) / 8)
+    (hok : strOK' lbP ubP = true) (hbytes : bytes.length = (len + 7) / 8)
     (h : bitString pos ((bytesToBits bytes).take len) ext lbP ubP = some b) :
     ∃ b', appendBitString pos bytes len ext lbP ubP = .ok b' := by
   have hclen : ((bytesToBits bytes).take len).length = len := by
@@ -274,7 +285,7 @@ theorem bit_string_total (pos : Nat) (bytes : Bytes) (len : Nat) (ext : Bool) (l
   cases hsc : sizeConstraint len ext lbP ubP with
   | none => rw [hsc] at h; simp at h
   | some x =>
-    obtain ⟨pre, lb, ub, sr, hsp, hlb0, hcase⟩ := sizePreamble_total _ _ _ _ x hok hlen hsc
+    obtain ⟨pre, lb, ub, sr, hsp, hlb0, hcase⟩ := sizePreamble_total _ _ _ _ x hok hsc
     unfold appendBitString
     have hnp : ¬ bytes.length < (len + 7) / 8 := by omega
     simp only [hnp, if_false]
@@ -286,13 +297,19 @@ theorem bit_string_total (pos : Nat) (bytes : Bytes) (len : Nat) (ext : Bool) (l
       split <;> exact ⟨_, rfl⟩
     · have : ¬ (len : Int) < lb := by omega
       simp only [hsr, if_false, this]
-      rw [fragLoop_small 1 sr lb.toNat _ _ _ _ (by omega)]
-      obtain ⟨l, hl⟩ := appendLength_total (pos + pre.length) sr (len - lb.toNat) hdom
-      rw [hl]
-      dsimp only
-      by_cases h0 : len - lb.toNat + lb.toNat = 0
-      · simp only [h0, if_true]; exact ⟨_, rfl⟩
-      · simp only [h0, if_false]; exact ⟨_, rfl⟩
+      rcases hdom with ⟨hsr1, hlb⟩ | ⟨d1, d2, d3, d4⟩
+      · subst hsr1 hlb
+        simp only [Int.toNat_zero, Nat.sub_zero]
+        rw [fragLoop_unc 1 (by decide) (len / 16384 + 1) _ len ((bytesToBits bytes).take len)
+          (by rw [hclen]; omega) (Nat.le_refl _)]
+        exact ⟨_, rfl⟩
+      · rw [fragLoop_small 1 sr lb.toNat _ _ _ _ d4]
+        obtain ⟨l, hl⟩ := appendLength_total (pos + pre.length) sr (len - lb.toNat) (Or.inr ⟨d1, d2, d3⟩)
+        rw [hl]
+        dsimp only
+        by_cases h0 : len - lb.toNat + lb.toNat = 0
+        · simp only [h0, if_true]; exact ⟨_, rfl⟩
+        · simp only [h0, if_false]; exact ⟨_, rfl⟩
 
 /-! ### what completeness asks of the schema in addition to `specOK` -/
 
@@ -400,7 +417,7 @@ theorem findIdx?_take_of_any {α : Type} (p : α → Bool) : ∀ (l : List α) (
       · simp [hp]
       · simp only [hp, if_false, Bool.false_eq_true]
         rw [List.any_cons] at h
-        simp only [hp, Bool.false_or, Bool.false_eq_true] at h
+        simp only [hp, Bool.false_or] at h
         rw [ih i h]
 
 theorem resolveRef_total (rfv : Ty → Val → Res Int) (gov : Ty → Val → Option Int)
@@ -466,13 +483,13 @@ theorem optBitmap_total : ∀ (fields : List Field) (fs : List Val), fs.length =
         rfl
       · simp only [ho, if_false, Bool.false_eq_true]
         have hpres : presentB v = true := by
-          simp only [ho, Bool.false_or, Bool.false_eq_true] at h1
+          simp only [ho, Bool.false_or] at h1
           exact h1
         have hn : ¬ isNil v = true := by
           intro hn
           cases v <;> simp [isNil] at hn
           simp [presentB] at hpres
-        simp only [hn, if_false]
+        simp only [hn]
         rfl
 
 /-- 20 completeness: the elements -/
@@ -717,14 +734,336 @@ theorem sliceHeader_total (params : Params) (n pos : Nat) (pre : Bits) (lbS : Na
           exact ⟨l, u, -1, cb, rfl, hcb⟩
         · simp [hx] at hsc
 
-/-- 11.2 completeness: a non-empty content shorter than 16384 octets is always wrapped -/
-theorem openType_total (pos1 : Nat) (inner : Bits) (hlen : (inner.length + 7) / 8 < 16384) :
-    ∃ b, encOpenType pos1 inner = .ok b := by
+/-- 11.2 completeness: the content is always wrapped -/
+theorem openType_total (pos1 : Nat) (inner : Bits) : ∃ b, encOpenType pos1 inner = .ok b := by
   unfold encOpenType
   dsimp only
-  rw [fragLoop_small 8 (-1) 0 _ _ _ _ hlen]
-  rw [length_unc pos1 (-1) _ hlen (by omega)]
-  dsimp only
-  split <;> exact ⟨_, rfl⟩
+  have hpl : (inner ++ alignBits inner.length).length = 8 * ((inner.length + 7) / 8) := by
+    rw [List.length_append]; exact padded_length _
+  rw [fragLoop_unc 8 (by decide) ((inner.length + 7) / 8 / 16384 + 1) pos1 ((inner.length + 7) / 8)
+    (inner ++ alignBits inner.length) (by rw [hpl]; omega) (Nat.le_refl _)]
+  exact ⟨_, rfl⟩
+
+theorem refsPrecede_get (fields : List Field) (h : refsPrecede fields = true) (j : Nat) (fd : Field)
+    (hj : fields[j]? = some fd) (ho : fd.params.openType = true) :
+    (fields.take j).any (fun g => g.name == fd.params.refField) = true := by
+  unfold refsPrecede at h
+  rw [List.all_eq_true] at h
+  have hm : (fd, j) ∈ fields.zipIdx := by
+    rw [List.mk_mem_zipIdx_iff_getElem?]; exact hj
+  have := h (fd, j) hm
+  simpa [ho] using this
+
+/-- 19 SEQUENCE body: completeness -/
+theorem specSeq_total (env : Env) (fuel : Nat)
+    (f : Nat → Ty → Params → Val → Res Bits) (enc : Nat → Ty → Params → Val → Option Bits)
+    (rfv : Ty → Val → Res Int) (gov : Ty → Val → Option Int)
+    (hgov : ∀ ty v x, gov ty v = some x → rfv ty v = .ok x)
+    (H : ∀ pos ty p v b, tyParamsOK env ty p = true → tyParamsOKc ty p = true →
+      regular env fuel ty p.openType v = true → enc pos ty p v = some b → f pos ty p v = .ok b)
+    (sd : StructDef) (pre : Bits) (pos1 : Nat) (fs : List Val) (out : Bits)
+    (hok : ∀ fd ∈ sd.fields, tyParamsOK env fd.ty fd.params = true ∧ tyParamsOKc fd.ty fd.params = true)
+    (hpre : refsPrecede sd.fields = true)
+    (hreg : regularFields env fuel sd.fields fs = true)
+    (h : specSeq enc gov sd pre pos1 fs = some out) : ∃ body, encSeq f rfv sd pos1 fs = .ok body := by
+  unfold specSeq at h
+  split at h
+  · simp at h
+  · rename_i hl
+    have hl' : fs.length = sd.fields.length := by omega
+    split at h
+    · simp at h
+    · rename_i hall
+      have hall' := Classical.not_not.mp hall
+      dsimp only at h
+      have hbm0 := optBitmap_total sd.fields fs hl' hall'
+      generalize hbmv : (List.filterMap (fun (x : Field × Val) =>
+        match x with
+        | (fd, v) => if fd.params.optional then some (match v with | .nil => false | _ => true) else none)
+        (sd.fields.zip fs)) = bm at hbm0
+      obtain ⟨_, h2⟩ := optBitmap_fwd sd.fields fs bm hl' hbm0
+      rw [h2] at h
+      unfold encSeq
+      have c1 : ¬ fs.length ≠ sd.fields.length := by omega
+      simp only [c1, if_false]
+      rw [hbm0]
+      dsimp only
+      split at h
+      · simp at h
+      · rename_i body hcomp
+        have := components_total env fuel f enc rfv gov hgov H sd.fields fs sd.fields fs 0 _ body hok hreg
+          (fun j fd hj ho => by
+            have := refsPrecede_get sd.fields hpre j fd hj ho
+            simpa using this) hcomp
+        rw [this]
+        exact ⟨_, rfl⟩
+
+/-- what completeness asks of a CHOICE type used with `params` -/
+def choiceOKc (p : Params) : Bool :=
+  p.openType || (match p.valueUB with | some u => decide (u < 65536) | none => true)
+
+/-- 23 CHOICE and 11.2 open type: completeness -/
+theorem specChoice_total (env : Env) (fuel : Nat)
+    (H : ∀ pos ty p v b, tyParamsOK env ty p = true → tyParamsOKc ty p = true →
+      regular env fuel ty p.openType v = true →
+      Spec.X691.encode env fuel pos ty p v = some b → encField env fuel pos ty p v = .ok b)
+    (sd : StructDef) (params : Params) (pre : Bits) (pos1 : Nat) (fs : List Val) (out : Bits)
+    (hfields : ∀ fd ∈ sd.fields, tyParamsOK env fd.ty fd.params = true ∧ tyParamsOKc fd.ty fd.params = true)
+    (hok : choiceOK env sd params = true) (hokc : choiceOKc params = true)
+    (hreg : regChoice env fuel sd fs = true)
+    (h : specChoice (Spec.X691.encode env fuel) sd params pre pos1 fs = some out) :
+    ∃ body, encChoice (encField env fuel) sd params pos1 fs = .ok body := by
+  unfold specChoice at h
+  split at h
+  · rename_i p alts
+    dsimp only at h
+    split at h
+    · simp at h
+    · rename_i hp
+      split at h
+      · simp at h
+      · split at h
+        · rename_i fd alt hfd halt
+          simp only [regChoice, hfd, halt, Bool.and_eq_true] at hreg
+          obtain ⟨_, hregalt⟩ := hreg
+          have hfdmem : fd ∈ sd.fields := List.mem_of_getElem? hfd
+          obtain ⟨hfdok, hfdokc⟩ := hfields fd hfdmem
+          have hlen : p.toNat < sd.fields.length := by
+            have := List.getElem?_eq_some_iff.mp hfd
+            exact this.1
+          unfold encChoice
+          have c1 : ¬ p ≤ 0 := by omega
+          have c2 : ¬ p.toNat ≥ sd.fields.length := by omega
+          simp only [c1, c2, if_false, hfd, halt]
+          by_cases hot : params.openType = true
+          · simp only [hot, if_true] at h ⊢
+            split at h
+            · simp at h
+            · rename_i hrv
+              have hrv1 : fd.params.refValue.isNone = false ∧ fd.params.refValue = params.refValue := by
+                constructor
+                · cases hc : fd.params.refValue.isNone
+                  · rfl
+                  · exact absurd (Or.inl hc) hrv
+                · false_or_by_contra
+                  rename_i hc
+                  exact hrv (Or.inr hc)
+              cases hpr : params.refValue with
+              | none =>
+                rw [hpr] at hrv1
+                rw [hrv1.2] at hrv1
+                simp at hrv1
+              | some rv =>
+                dsimp only
+                have c3 : ¬ (fd.params.refValue ≠ some rv) := by rw [hrv1.2, hpr]; simp
+                simp only [c3, if_false]
+                split at h
+                · simp at h
+                · rename_i inner hin
+                  have hin' := H 0 fd.ty fd.params alt inner hfdok hfdokc hregalt hin
+                  rw [hin']
+                  dsimp only
+                  exact openType_total pos1 inner
+          · simp only [hot, if_false, Bool.false_eq_true] at h ⊢
+            simp only [choiceOK, hot, if_false, Bool.false_eq_true] at hok
+            simp only [choiceOKc, hot, Bool.false_or] at hokc
+            split at h
+            · rename_i ub hub
+              rw [hub] at hok hokc
+              simp only [Bool.and_eq_true, beq_iff_eq, decide_eq_true_eq] at hok hokc
+              obtain ⟨hub1, hlen3⟩ := hok
+              split at h
+              · simp at h
+              · split at h
+                · simp at h
+                · rename_i ib hib
+                  obtain ⟨ib', hib'⟩ := choice_index_total pos1 p.toNat (sd.fields.length - 1) params.valueExt ub hub1
+                    (by omega) (by omega) (by omega) (by omega)
+                  have := choice_index_fwd pos1 p.toNat (sd.fields.length - 1) params.valueExt ub ib' hub1
+                    (by omega) (by omega) (by omega) hib'
+                  rw [hib] at this
+                  simp only [Option.some.injEq] at this
+                  subst this
+                  rw [hub, hib']
+                  dsimp only
+                  split at h
+                  · simp at h
+                  · rename_i ab hab
+                    rw [H _ fd.ty fd.params alt ab hfdok hfdokc hregalt hab]
+                    exact ⟨_, rfl⟩
+            · simp at h
+        · simp at h
+  · simp at h
+
+theorem specOKc_field (env : Env) (hwf : specOKc env = true) (id : Nat) (sd : StructDef) (hsd : env[id]? = some sd) :
+    refsPrecede sd.fields = true ∧ ∀ fd ∈ sd.fields, tyParamsOKc fd.ty fd.params = true := by
+  unfold specOKc at hwf
+  rw [List.all_eq_true] at hwf
+  have := hwf sd (List.mem_of_getElem? hsd)
+  rw [Bool.and_eq_true, List.all_eq_true] at this
+  exact this
+
+/-- **Completeness**: the encoder model encodes (with the same bits) every regular value the specification encodes -/
+theorem encode_complete (env : Env) (hwf : specOK env = true) (hwfc : specOKc env = true) :
+    ∀ (fuel pos : Nat) (ty : Ty) (params : Params) (v : Val) (bits : Bits),
+      tyParamsOK env ty params = true → tyParamsOKc ty params = true →
+      regular env fuel ty params.openType v = true →
+      Spec.X691.encode env fuel pos ty params v = some bits → encField env fuel pos ty params v = .ok bits := by
+  intro fuel
+  induction fuel with
+  | zero => intro pos ty params v bits _ _ _ h; simp [Spec.X691.encode] at h
+  | succ fuel ih =>
+    intro pos ty params v bits hok hokc hreg h
+    -- it is enough to show that the model does not fail: the bits are then the specification's (`encode_eq_spec`)
+    suffices hex : ∃ b', encField env (fuel + 1) pos ty params v = .ok b' by
+      obtain ⟨b', hb'⟩ := hex
+      have := encode_eq_spec env hwf (fuel + 1) pos ty params v b' hok hreg hb'
+      rw [h] at this
+      simp only [Option.some.injEq] at this
+      rw [hb', this]
+    cases ty <;> cases v <;> try (simp [Spec.X691.encode] at h; done)
+    · -- INTEGER
+      rename_i n
+      simp only [Spec.X691.encode] at h
+      simp only [encField]
+      simp only [regular, Bool.and_eq_true, decide_eq_true_eq] at hreg
+      refine integer_total pos n _ _ _ bits hok ?_ hreg.1 hreg.2 h
+      intro l u hl hu
+      simp only [tyParamsOKc, hl, hu, decide_eq_true_eq] at hokc
+      exact hokc
+    · -- ENUMERATED
+      rename_i n
+      simp only [Spec.X691.encode] at h
+      simp only [encField]
+      refine enumerated_total pos n _ _ _ bits ?_ h
+      intro u hu
+      simp only [tyParamsOKc, hu, decide_eq_true_eq] at hokc
+      exact hokc
+    · -- BIT STRING
+      rename_i bytes len
+      simp only [Spec.X691.encode] at h
+      simp only [encField]
+      simp only [regular, decide_eq_true_eq] at hreg
+      have : ¬ bytes.length ≠ (len + 7) / 8 := by omega
+      simp only [this, if_false] at h
+      exact bit_string_total pos bytes len _ _ _ bits hok hreg h
+    · -- OCTET STRING
+      rename_i b
+      simp only [Spec.X691.encode] at h
+      simp only [encField]
+      exact octet_string_total pos b _ _ _ bits hok h
+    · -- PrintableString
+      rename_i b
+      simp only [Spec.X691.encode] at h
+      simp only [encField]
+      exact octet_string_total pos b _ _ _ bits hok h
+    · -- BOOLEAN
+      simp only [encField]
+      exact ⟨_, rfl⟩
+    · -- SEQUENCE / CHOICE / open type
+      rename_i id fs
+      simp only [encField]
+      cases hsd : env[id]? with
+      | none => simp [Spec.X691.encode, hsd] at h
+      | some sd =>
+        dsimp only
+        rw [encode_struct env fuel pos id params fs sd hsd] at h
+        rw [regular_struct env fuel id _ fs sd hsd] at hreg
+        simp only [tyParamsOK] at hok
+        rw [structOK_eq env id params sd hsd] at hok
+        have hfields := specOK_field env hwf id sd hsd
+        obtain ⟨hprec, hfieldsc⟩ := specOKc_field env hwfc id sd hsd
+        have hboth : ∀ fd ∈ sd.fields, tyParamsOK env fd.ty fd.params = true ∧ tyParamsOKc fd.ty fd.params = true :=
+          fun fd hfd => ⟨hfields fd hfd, hfieldsc fd hfd⟩
+        by_cases hch : isChoice sd = true
+        · simp only [hch, if_true, Bool.not_true, Bool.false_eq_true, if_false] at h hreg hok ⊢
+          obtain ⟨body, hb⟩ := specChoice_total env fuel ih sd params _ _ fs bits hboth hok
+            (by simpa [tyParamsOKc, choiceOKc] using hokc) hreg h
+          rw [hb]
+          exact ⟨_, rfl⟩
+        · simp only [hch, if_false, Bool.not_false, if_true, Bool.false_eq_true] at h hreg hok ⊢
+          obtain ⟨body, hb⟩ := specSeq_total env fuel (encField env fuel) (Spec.X691.encode env fuel) (refFieldValue env fuel)
+            (Spec.X691.governor env fuel) (governor_total env fuel) ih sd _ _ fs bits hboth hprec hreg h
+          rw [hb]
+          exact ⟨_, rfl⟩
+    · -- pointer
+      rename_i t v'
+      simp only [Spec.X691.encode] at h
+      simp only [encField]
+      simp only [tyParamsOK] at hok
+      simp only [tyParamsOKc] at hokc
+      simp only [regular] at hreg
+      exact ⟨bits, ih pos t params v' bits hok hokc hreg h⟩
+    · -- SEQUENCE OF
+      rename_i t vs
+      rw [encode_slice] at h
+      simp only [encField]
+      simp only [tyParamsOK, Bool.and_eq_true] at hok
+      simp only [tyParamsOKc] at hokc
+      simp only [regular, List.all_eq_true] at hreg
+      cases hsc : sizeConstraint vs.length params.sizeExt params.sizeLB params.sizeUB with
+      | none => rw [hsc] at h; simp at h
+      | some x =>
+        obtain ⟨pre, lbS, ubS⟩ := x
+        rw [hsc] at h
+        dsimp only at h
+        cases hcnt : (if ubS = some lbS ∧ lbS < 65536 then some [] else lengthDeterminant (pos + pre.length) vs.length lbS ubS : Option Bits) with
+        | none => rw [hcnt] at h; simp at h
+        | some c =>
+          rw [hcnt] at h
+          dsimp only at h
+          cases hel : Spec.X691.elements (fun p e => Spec.X691.encode env fuel p t (stripSizeE params) e)
+              (pos + pre.length + c.length) vs with
+          | none => rw [hel] at h; simp at h
+          | some es =>
+            obtain ⟨lb, ub, sr, cb, hh, hc⟩ := sliceHeader_total params vs.length pos pre lbS ubS c hok.1 hsc hcnt
+            obtain ⟨lbS', ubS', hsc', hcnt'⟩ := sliceHeader_fwd params vs.length (pos + pre.length) pre lb ub sr cb hok.1 hh hc
+            rw [hsc] at hsc'
+            simp only [Option.some.injEq, Prod.mk.injEq, true_and] at hsc'
+            obtain ⟨rfl, rfl⟩ := hsc'
+            rw [hcnt] at hcnt'
+            simp only [Option.some.injEq] at hcnt'
+            subst hcnt'
+            unfold encSlice
+            rw [hh]
+            dsimp only
+            rw [hc]
+            dsimp only
+            have := elements_total (fun p v => encField env fuel p t (stripSizeE params) v)
+              (fun p e => Spec.X691.encode env fuel p t (stripSizeE params) e) vs (pos + pre.length + c.length) es
+              (fun v hv pos' b' hb' => ih pos' t (stripSizeE params) v b' hok.2 hokc (hreg v hv) hb') hel
+            rw [this]
+            exact ⟨_, rfl⟩
+
+/-- the model and the specification agree exactly: same domain, same bits -/
+theorem encode_iff (env : Env) (hwf : specOK env = true) (hwfc : specOKc env = true) (fuel pos : Nat) (ty : Ty)
+    (params : Params) (v : Val) (bits : Bits)
+    (hp : tyParamsOK env ty params = true) (hpc : tyParamsOKc ty params = true)
+    (hr : regular env fuel ty params.openType v = true) :
+    encField env fuel pos ty params v = .ok bits ↔ Spec.X691.encode env fuel pos ty params v = some bits :=
+  ⟨encode_eq_spec env hwf fuel pos ty params v bits hp hr,
+   encode_complete env hwf hwfc fuel pos ty params v bits hp hpc hr⟩
+
+/-- the same at the level of `aper.MarshalWithParams` / a complete encoding (11.1) -/
+theorem marshal_iff (env : Env) (hwf : specOK env = true) (hwfc : specOKc env = true) (fuel : Nat) (ty : Ty)
+    (params : Params) (v : Val) (bs : Bytes)
+    (hp : tyParamsOK env ty params = true) (hpc : tyParamsOKc ty params = true)
+    (hr : regular env fuel ty params.openType v = true) :
+    marshal env fuel ty params v = .ok bs ↔ Spec.X691.encodePdu env fuel ty params v = some bs := by
+  constructor
+  · exact marshal_eq_spec env hwf fuel ty params v bs hp hr
+  · intro h
+    unfold Spec.X691.encodePdu at h
+    unfold marshal
+    cases he : Spec.X691.encode env fuel 0 ty params v with
+    | none => rw [he] at h; simp at h
+    | some bits =>
+      rw [he] at h
+      dsimp only at h
+      rw [encode_complete env hwf hwfc fuel 0 ty params v bits hp hpc hr he]
+      dsimp only
+      split at h <;> rename_i hc
+      · simp only [Option.some.injEq] at h; simp [hc, h]
+      · simp only [Option.some.injEq] at h; simp [hc, h]
 
 end Stgutg.Proofs.AperSpec
